@@ -40,20 +40,20 @@ fn addr(port: u16) -> SocketAddr {
     format!("127.0.0.1:{port}").parse().unwrap()
 }
 
-struct NodeSpec {
-    name: &'static str,
-    tag: u64,
-    idx: usize,
-    key: node::SecretKey,
-    port: u16,
-    static_inbound: HashSet<node::PublicKey>,
-    static_outbound: HashMap<node::PublicKey, net::Host>,
-    dynamic_inbound_limit: usize,
-    max_block_queue_size: usize,
+pub(crate) struct NodeSpec {
+    pub name: &'static str,
+    pub tag: u64,
+    pub idx: usize,
+    pub key: node::SecretKey,
+    pub port: u16,
+    pub static_inbound: HashSet<node::PublicKey>,
+    pub static_outbound: HashMap<node::PublicKey, net::Host>,
+    pub dynamic_inbound_limit: usize,
+    pub max_block_queue_size: usize,
 }
 
 #[allow(clippy::type_complexity)]
-fn start_node(
+pub(crate) fn start_node(
     spec: NodeSpec,
     genesis: validator::Genesis,
     store: Arc<Mutex<NodeStore>>,
